@@ -1,4 +1,5 @@
 import DnpProofs.Lemmas.Transpose
+import DnpProofs.Lemmas.Procpar
 set_option linter.unusedSectionVars false
 /-!
 # C06 — vendor files import sample-exactly, in the right place
@@ -8,7 +9,9 @@ read into an axis-transposed array (`Layout`): decoding what the encoder wrote r
 array, for every rank, extent, point width and transposition.  The per-format layouts (which
 header fields give the extents, the byte order, the real/imaginary convention) are data handed
 to this model by the harness and compared against the real importers; text-header parsing is
-covered differentially only.
+covered differentially only — except for VnmrJ, whose parameter file and array-axis rule are modelled
+(`DnpModel/Io/Procpar.lean`): section `procpar` below proves that the reader returns every parameter of a
+well-formed file exactly as written and states `array_coords` as the decision logic it is.
 -/
 namespace Dnp.C06
 open Np Dnp.Layout
@@ -145,6 +148,87 @@ theorem decode_encode (L : Layout) (fill : Byte) (a : Arr Point) (h : Fits L a) 
     rw [← hbshape]
   rw [this, hb]
   exact congrArg Except.ok (transpose_invPerm a L.perm h.wf (by rw [hlen_a]; exact h.perm))
+
+/-! ### VnmrJ: the parameter file and the array axis ("axes equal to those computed from the header parameters") -/
+section procpar
+open Dnp.Procpar
+
+/-- reading what the writer wrote returns every parameter, in file order, with exactly the value tokens of the file —
+    for any number of parameters, single- and multi-valued reals, single- and multi-line strings -/
+theorem procpar_parse_print (ps : List (String × PVal)) (h : ∀ p ∈ ps, WFParam p) :
+    Procpar.parse (Procpar.print ps) = .ok ps :=
+  parseFuel_print ps _ h (print_length_ge ps)
+
+/-- a multi-valued real parameter keeps ALL its values in file order (the count token is not one of them) -/
+theorem procpar_reals_in_file_order (nm : String) (vs : List Tok) (h : vs.length ≠ 1) (rest : List (String × PVal))
+    (hr : ∀ p ∈ rest, WFParam p) :
+    (Procpar.parse (Procpar.print ((nm, .reals vs) :: rest))).toOption.map (fun ps => ps.head?.map (·.2))
+      = some (some (.reals vs)) := by
+  rw [procpar_parse_print _ (by
+    intro p hp
+    rcases List.mem_cons.1 hp with rfl | hp
+    · exact h
+    · exact hr p hp)]
+  rfl
+
+variable (N : Num) (d : String → Option PVal)
+
+/-- array_coords, decision logic stated outright (1): an experiment arrayed over a NAMED parameter gets that name as
+    dimension and exactly the parameter's values, in file order, as coordinates -/
+theorem arrayCoords_named (delta dim start stop : Tok) (arr : String) (vs : List Tok)
+    (h1 : d "arraydelta" = some (.real delta)) (h2 : d "arraydim" = some (.real dim)) (h3 : d "arraystart" = some (.real start))
+    (h4 : d "arraystop" = some (.real stop)) (h5 : d "array" = some (.str arr)) (hdim : N.isOne dim = false)
+    (harr : arr ≠ "") (hv : d arr = some (.reals vs)) :
+    arrayCoords N d = some (arr, .values vs) := by
+  simp [arrayCoords, h1, h2, h3, h4, h5, hdim, harr, hv]
+
+/-- (2): an unnamed array gets the dimension `t1` and `r_[start : stop + delta : delta]` -/
+theorem arrayCoords_unnamed (delta dim start stop : Tok)
+    (h1 : d "arraydelta" = some (.real delta)) (h2 : d "arraydim" = some (.real dim)) (h3 : d "arraystart" = some (.real start))
+    (h4 : d "arraystop" = some (.real stop)) (h5 : d "array" = some (.str "")) (hdim : N.isOne dim = false) :
+    arrayCoords N d = some ("t1", .range start stop delta) := by
+  simp [arrayCoords, h1, h2, h3, h4, h5, hdim]
+
+/-- (3): `arraydim = 1` — no array dimension, whatever the other parameters say -/
+theorem arrayCoords_single (delta dim start stop : Tok) (arr : String)
+    (h1 : d "arraydelta" = some (.real delta)) (h2 : d "arraydim" = some (.real dim)) (h3 : d "arraystart" = some (.real start))
+    (h4 : d "arraystop" = some (.real stop)) (h5 : d "array" = some (.str arr)) (hdim : N.isOne dim = true) :
+    arrayCoords N d = none := by
+  simp [arrayCoords, h1, h2, h3, h4, h5, hdim]
+
+/-- (4): a describing parameter missing from the file — no array dimension -/
+theorem arrayCoords_missing (h : d "arraydelta" = none ∨ d "arraydim" = none ∨ d "arraystart" = none ∨ d "arraystop" = none ∨
+    d "array" = none) : arrayCoords N d = none := by
+  unfold arrayCoords
+  rcases h with h | h | h | h | h <;> rw [h] <;> split <;> simp_all
+
+/-- (5): named, but the named parameter is not in the file: the start/stop description is used, with `arraymax` as the
+    end when stop does not lie beyond start -/
+theorem arrayCoords_named_fallback (delta dim start stop : Tok) (arr : String)
+    (h1 : d "arraydelta" = some (.real delta)) (h2 : d "arraydim" = some (.real dim)) (h3 : d "arraystart" = some (.real start))
+    (h4 : d "arraystop" = some (.real stop)) (h5 : d "array" = some (.str arr)) (hdim : N.isOne dim = false)
+    (harr : arr ≠ "") (hv : d arr = none) :
+    arrayCoords N d = (if N.gt stop start then some (arr, .range start stop delta)
+                       else match d "arraymax" with
+                         | some (.real mx) => some (arr, .range start mx delta)
+                         | _ => none) := by
+  simp only [arrayCoords, h1, h2, h3, h4, h5, hdim, hv]
+  simp only [harr, Bool.false_eq_true, if_false, ne_eq, not_false_eq_true, if_true]
+  split <;> rfl
+
+/-- end to end on a concrete well-formed file (non-vacuity of the hypotheses above, and the count token is not a value):
+    `array = "d2"`, `d2 = 0.5 0.1 2.0`, three blocks → dimension `d2`, coordinates 0.5, 0.1, 2.0 in acquisition order -/
+theorem example_named_array :
+    let ps : List (String × PVal) :=
+      [("arraydim", .real (.num 3)), ("array", .str "d2"), ("arraystart", .real (.num 0)), ("arraystop", .real (.num 2)),
+       ("arraydelta", .real (.num 1)), ("d2", .reals [.txt "0.5", .txt "0.1", .txt "2.0"])]
+    let N : Num := { isOne := fun t => t == .num 1, gt := fun _ _ => true }
+    (match Procpar.parse (Procpar.print ps) with
+      | .ok qs => arrayCoords N (Procpar.lookup qs)
+      | .error _ => none) = some ("d2", .values [.txt "0.5", .txt "0.1", .txt "2.0"]) := by decide +kernel
+
+end procpar
+
 
 /-- non-vacuity and a concrete check of the index convention: a (2 rows × 3 points) file with a 1-byte
     row prefix, transposed on import, as VnmrJ stores its blocks -/
